@@ -1,9 +1,23 @@
 /-
 C05 — distributed mapreduce result equals central evaluation of the query.
+
+The state of one select column inside one group is a `Col`; `combine op` is at once the
+per-line aggregation (`AggregateSet.Aggregate`), the client's re-aggregation of a received
+partial and `AggregateSet.Merge` (after the fix).  The theorems are stated per group and per
+column — the executable pipeline model (`distributed` / `central`, compared with the real
+code on every run) applies exactly these functions column-wise.
 -/
 import DtailModel.Model.Aggregate
 namespace Dtail.C05
 open Dtail
+
+/-- a column state as an operation produces it -/
+def Col.Wf (op : AggOp) (c : Col) : Prop :=
+  match op with
+  | .count | .sum | .avg | .min | .max => c.str = none
+  | .last => c.num = none
+  | .len => (c.num.isSome ↔ c.str.isSome)
+  | .undef => c = {}
 
 /-- merging is associative for every aggregation operation -/
 theorem C05_combine_assoc (op : AggOp) (a b c : Col) :
@@ -11,5 +25,136 @@ theorem C05_combine_assoc (op : AggOp) (a b c : Col) :
   obtain ⟨an, as⟩ := a; obtain ⟨bn, bs⟩ := b; obtain ⟨cn, cs⟩ := c
   cases op <;> cases an <;> cases bn <;> cases cn <;> cases as <;> cases bs <;> cases cs <;>
     simp [combine, addNum, minNum, maxNum, Int.add_assoc] <;> (try split) <;> (try split) <;> (try split) <;> omega
+
+/-- for count, sum, avg, min and max merging is commutative: partial results may arrive in
+    any order -/
+theorem C05_combine_comm (op : AggOp) (a b : Col)
+    (hop : op = .count ∨ op = .sum ∨ op = .avg ∨ op = .min ∨ op = .max) :
+    combine op a b = combine op b a := by
+  obtain ⟨an, as⟩ := a; obtain ⟨bn, bs⟩ := b
+  rcases hop with rfl | rfl | rfl | rfl | rfl <;> cases an <;> cases bn <;>
+    simp [combine, addNum, minNum, maxNum, Int.add_comm] <;> (try split) <;> (try split) <;> omega
+
+/-- the empty column is a right identity, and a left identity on well-formed columns -/
+theorem C05_combine_empty (op : AggOp) (a : Col) (h : Col.Wf op a) :
+    combine op a {} = a ∧ combine op {} a = a := by
+  obtain ⟨an, as⟩ := a
+  cases op <;> cases an <;> cases as <;> simp_all [combine, addNum, minNum, maxNum, Col.Wf]
+
+theorem combine_wf (op : AggOp) (a b : Col) (ha : Col.Wf op a) (hb : Col.Wf op b) :
+    Col.Wf op (combine op a b) := by
+  obtain ⟨an, as⟩ := a; obtain ⟨bn, bs⟩ := b
+  cases op <;> cases an <;> cases bn <;> cases as <;> cases bs <;> simp_all [combine, Col.Wf]
+
+/-- the column after a sequence of contributions (lines of one group, in order) -/
+def colFold (op : AggOp) (ks : List Col) : Col := ks.foldl (combine op) {}
+
+theorem foldl_combine_from (op : AggOp) (c : Col) (ks : List Col) (hc : Col.Wf op c)
+    (hk : ∀ k ∈ ks, Col.Wf op k) :
+    ks.foldl (combine op) c = combine op c (colFold op ks) ∧ Col.Wf op (ks.foldl (combine op) c) := by
+  induction ks generalizing c with
+  | nil => exact ⟨((C05_combine_empty op c hc).1).symm, hc⟩
+  | cons k ks ih =>
+    have hk0 := hk k (by simp)
+    have hks : ∀ x ∈ ks, Col.Wf op x := fun x hx => hk x (List.mem_cons_of_mem _ hx)
+    have hwf0 : Col.Wf op ({} : Col) := by cases op <;> simp [Col.Wf]
+    have h1 := ih (combine op c k) (combine_wf op c k hc hk0) hks
+    have h2 := ih (combine op {} k) (combine_wf op {} k hwf0 hk0) hks
+    refine ⟨?_, h1.2⟩
+    simp only [List.foldl_cons, colFold]
+    rw [h1.1, h2.1, (C05_combine_empty op k hk0).2, C05_combine_assoc]
+
+/-- Per-line aggregation is a homomorphism: aggregating the lines of two parts one after the
+    other equals merging the two partial aggregates. -/
+theorem C05_homomorphism (op : AggOp) (l1 l2 : List Col)
+    (h1 : ∀ k ∈ l1, Col.Wf op k) (h2 : ∀ k ∈ l2, Col.Wf op k) :
+    colFold op (l1 ++ l2) = combine op (colFold op l1) (colFold op l2) := by
+  have hwf0 : Col.Wf op ({} : Col) := by cases op <;> simp [Col.Wf]
+  unfold colFold
+  rw [List.foldl_append]
+  exact (foldl_combine_from op _ l2 (foldl_combine_from op {} l1 hwf0 h1).2 h2).1
+
+/-- **Distributed = central, every operation.**  However the lines of a group are split into
+    partials (servers × files × serialisation intervals, empty parts included), merging the
+    partial aggregates in line order yields exactly the aggregate of all lines — for count,
+    sum, avg (sum), min, max, last and len alike. -/
+theorem C05_partition (op : AggOp) (parts : List (List Col))
+    (h : ∀ p ∈ parts, ∀ k ∈ p, Col.Wf op k) :
+    (parts.map (colFold op)).foldl (combine op) {} = colFold op parts.flatten := by
+  have hwf0 : Col.Wf op ({} : Col) := by cases op <;> simp [Col.Wf]
+  have gen : ∀ (parts : List (List Col)), (∀ p ∈ parts, ∀ k ∈ p, Col.Wf op k) →
+      ∀ c, Col.Wf op c →
+      (parts.map (colFold op)).foldl (combine op) c = combine op c (colFold op parts.flatten) := by
+    intro parts
+    induction parts with
+    | nil => intro _ c hc; simpa [colFold] using ((C05_combine_empty op c hc).1).symm
+    | cons p ps ih =>
+      intro h c hc
+      have hp : ∀ k ∈ p, Col.Wf op k := h p (by simp)
+      have hps : ∀ q ∈ ps, ∀ k ∈ q, Col.Wf op k := fun q hq => h q (List.mem_cons_of_mem _ hq)
+      have hall : ∀ k ∈ ps.flatten, Col.Wf op k := by
+        intro k hk; obtain ⟨q, hq, hkq⟩ := List.mem_flatten.1 hk; exact hps q hq k hkq
+      have hwfp : Col.Wf op (colFold op p) := (foldl_combine_from op {} p hwf0 hp).2
+      simp only [List.map_cons, List.foldl_cons, List.flatten_cons]
+      rw [ih hps (combine op c (colFold op p)) (combine_wf op c _ hc hwfp), C05_combine_assoc,
+        C05_homomorphism op p ps.flatten hp hall]
+  rw [gen parts h {} hwf0]
+  have hall : ∀ k ∈ parts.flatten, Col.Wf op k := by
+    intro k hk; obtain ⟨q, hq, hkq⟩ := List.mem_flatten.1 hk; exact h q hq k hkq
+  exact (C05_combine_empty op _ (foldl_combine_from op {} parts.flatten hwf0 hall).2).2
+
+/-- **Arrival order is irrelevant** for count, sum, avg, min and max: merging the partials in
+    any permutation gives the same aggregate. -/
+theorem C05_order_independent (op : AggOp) (ps qs : List Col) (hperm : ps.Perm qs)
+    (hop : op = .count ∨ op = .sum ∨ op = .avg ∨ op = .min ∨ op = .max) :
+    ps.foldl (combine op) {} = qs.foldl (combine op) {} := by
+  apply List.Perm.foldl_eq' hperm
+  intro x _ y _ z
+  rw [C05_combine_assoc, C05_combine_assoc, C05_combine_comm op x y hop]
+
+/-- For `last` (and the string of `len`) an out-of-order arrival still reports the value of
+    one of the partials that carried one. -/
+theorem C05_last_is_candidate (ps : List Col) (c : Col) :
+    (ps.foldl (combine .last) c).str = c.str ∨ ∃ p ∈ ps, (ps.foldl (combine .last) c).str = p.str ∧ p.str.isSome := by
+  induction ps generalizing c with
+  | nil => exact Or.inl rfl
+  | cons p ps ih =>
+    simp only [List.foldl_cons]
+    rcases ih (combine .last c p) with h | ⟨q, hq, h1, h2⟩
+    · by_cases hp : p.str.isSome
+      · right; refine ⟨p, by simp, ?_, hp⟩
+        rw [h]; simp [combine, hp]
+      · left; rw [h]; simp [combine, hp]
+    · right; exact ⟨q, List.mem_cons_of_mem _ hq, h1, h2⟩
+
+/-- samples are additive over any partition -/
+theorem C05_samples (parts : List (List Nat)) :
+    (parts.map List.sum).sum = parts.flatten.sum := by
+  induction parts with
+  | nil => rfl
+  | cons p ps ih => simp [List.sum_append, ih]
+
+/-- what a line contributes is well-formed for its operation, so the theorems above apply to
+    every contribution the model's `aggLine` ever combines -/
+theorem C05_contribution_wf (op : AggOp) (fs : Fields) (field : Bytes) (c : Col)
+    (h : contribution op fs field = some c) : Col.Wf op c := by
+  unfold contribution at h
+  cases hg : getField fs field with
+  | none => simp [hg] at h
+  | some v =>
+    simp only [hg] at h
+    cases op <;> simp at h <;> (try (subst h; simp [Col.Wf]))
+    all_goals (obtain ⟨n, _, rfl⟩ := h; simp [Col.Wf])
+
+/-- The defect that was repaired: with an absent operand read as 0 the merge of min was not
+    the minimum (kernel-checked on the old formula). -/
+theorem C05_old_merge_wrong : (if (5 : Int) > 0 then (0 : Int) else 5) ≠ 5 := by decide
+
+/-- non-vacuity: the pipeline model on a two-server table, min over a group one server lacks -/
+example :
+    distributed [⟨b!"x", b!"min(x)", .min⟩] [b!"g"]
+      [[[(b!"g", b!"A"), (b!"x", b!"5")]], [[(b!"g", b!"A")]]]
+    = central [⟨b!"x", b!"min(x)", .min⟩] [b!"g"] [[(b!"g", b!"A"), (b!"x", b!"5")], [(b!"g", b!"A")]] := by
+  decide
 
 end Dtail.C05
